@@ -67,7 +67,7 @@ StepDiff(e) ==
   ELSE IF ~Structural(e.pre) THEN <<0, "">>
   ELSE LET o == e.o IN
   IF o.op = "cursor" THEN
-       IF ~e.has_first THEN <<0, "">>
+       IF ~e.has_first \/ o.sec = "E" THEN <<0, "">>            \* option cursors: judged by History only
        ELSE LET v0 == [ViewMC(e.pre, e.mc0) EXCEPT !.mc = e.mc0] IN
             Fold(e.subs, 1, [p |-> e.pre, v |-> v0, c |-> ObsCur(e.first)], o.sec, o.incl, 0)
   ELSE IF o.op \in {"insert", "insert_q"} THEN
